@@ -16,6 +16,8 @@ pub enum Step {
   TopDown(Vec<u32>),
   /// One session: bottom-up build over all pending changed resources, then requires in the same session.
   BottomUp(Vec<u32>),
+  /// Crash point: the k-th task operation of the next session panics.
+  PanicAt(u64),
 }
 
 impl Step {
@@ -25,6 +27,7 @@ impl Step {
       Step::Arm(o, r, on) => format!("{} failing checker of T{} on R{}", if *on { "arm" } else { "disarm" }, o, r),
       Step::TopDown(roots) => format!("session: require {:?}", roots),
       Step::BottomUp(roots) => format!("session: bottom-up build of all pending changes, then require {:?}", roots),
+      Step::PanicAt(k) => format!("inject: task operation #{} of the next session panics", k),
     }
   }
   pub fn is_build(&self) -> bool { matches!(self, Step::TopDown(_) | Step::BottomUp(_)) }
@@ -355,4 +358,117 @@ pub fn curated() -> Vec<(&'static str, Case)> {
     steps: vec![Step::TopDown(vec![0]), Step::Set(0, Some(1)), Step::BottomUp(vec![]), Step::Set(0, Some(0)), Step::BottomUp(vec![]), Step::Set(0, Some(2)), Step::TopDown(vec![0])],
   }));
   v
+}
+
+// ---------------------------------------------------------------------------------------------------------------
+// Injections (C05-C07) / role flips (C20): value-conditional operations added to a well-formed program
+// ---------------------------------------------------------------------------------------------------------------
+
+#[derive(Clone, Copy, Debug, PartialEq, Eq)]
+pub enum Inject { HiddenRead, HiddenWrite, Overlap, Cycle, UserPanic }
+
+fn task_mentions_res(def: &TaskDef, r: u32) -> bool {
+  def.ops.iter().any(|o| match o {
+    Op::Read { sel, .. } | Op::ReadGen { sel, .. } => sel.targets().contains(&r),
+    Op::Write { res, .. } => *res == r,
+    _ => false,
+  })
+}
+
+/// Inserts `[Read(source), SkipIf(pred, 1), op]` (conditional) or just `op` at a random position of task `t`.
+fn insert_conditional(rng: &mut Rng, p: &mut Program, t: usize, op: Op, avoid_src: Option<u32>) {
+  let srcs: Vec<u32> = (0..p.n_res as u32).filter(|r| p.owner[*r as usize].is_none() && Some(*r) != avoid_src && !p.tasks[t].ops.iter().any(|o| matches!(o, Op::Write { res, .. } if res == r))).collect();
+  let pos = rng.below(p.tasks[t].ops.len() + 1);
+  if !srcs.is_empty() && rng.chance(3, 4) {
+    let s = *rng.pick(&srcs);
+    let pred = match rng.below(3) { 0 => Pred::LastEq(rng.below(3) as i32), 1 => Pred::LastNe(rng.below(3) as i32), _ => Pred::LastEq(-1) };
+    let seq = vec![Op::Read { sel: Sel::Const(s), kind: None, fail_stamp: false }, Op::SkipIf { pred, n: 1 }, op];
+    for (k, o) in seq.into_iter().enumerate() { p.tasks[t].ops.insert(pos + k, o); }
+  } else {
+    p.tasks[t].ops.insert(pos, op);
+  }
+}
+
+pub fn inject(rng: &mut Rng, p: &mut Program, what: Inject) -> bool {
+  let n = p.n_tasks();
+  let via = if rng.chance(2, 3) { Via::Ctx } else { Via::Declared };
+  let expr = if rng.chance(1, 2) { Expr::AccMod(VALS) } else { Expr::Const(Some(rng.below(VALS as usize) as u32)) };
+  match what {
+    Inject::HiddenRead => {
+      let gens: Vec<u32> = (0..p.n_res as u32).filter(|r| p.owner[*r as usize].is_some()).collect();
+      if gens.is_empty() { return false; }
+      let g = *rng.pick(&gens);
+      let w = p.owner[g as usize].unwrap() as usize;
+      let cands: Vec<usize> = (0..n).filter(|t| *t != w).collect();
+      if cands.is_empty() { return false; }
+      let x = *rng.pick(&cands);
+      // the injected read keeps the rule "write checker refines read checkers"
+      let wk = p.tasks[w].rkind[g as usize];
+      // one checker per target per task: reuse the kind of an earlier injected read of g in this task
+      let prior = p.tasks[x].ops.iter().find_map(|o| match o { Op::Read { sel: Sel::Const(r), kind: Some(k), .. } if *r == g => Some(*k), _ => None });
+      let kind = Some(prior.unwrap_or_else(|| if task_mentions_res(&p.tasks[x], g) { p.tasks[x].rkind[g as usize] } else { coarsen(rng, wk) }));
+      insert_conditional(rng, p, x, Op::Read { sel: Sel::Const(g), kind, fail_stamp: false }, None);
+    }
+    Inject::HiddenWrite => {
+      let srcs: Vec<u32> = (0..p.n_res as u32).filter(|r| p.owner[*r as usize].is_none()).collect();
+      let s = *rng.pick(&srcs);
+      let cands: Vec<usize> = (0..n).filter(|t| !task_mentions_res(&p.tasks[*t], s)).collect();
+      if cands.is_empty() { return false; }
+      let x = *rng.pick(&cands);
+      let k = Kind::Exact; // refines every reader's checker
+      insert_conditional(rng, p, x, Op::Write { res: s, expr, via, kind: Some(k), fail: Fail::None }, Some(s));
+    }
+    Inject::Overlap => {
+      let gens: Vec<u32> = (0..p.n_res as u32).filter(|r| p.owner[*r as usize].is_some()).collect();
+      if gens.is_empty() { return false; }
+      let g = *rng.pick(&gens);
+      let cands: Vec<usize> = (0..n).filter(|t| !task_mentions_res(&p.tasks[*t], g)).collect();
+      if cands.is_empty() { return false; }
+      let x = *rng.pick(&cands);
+      let k = Kind::Exact; // refines every reader's checker
+      insert_conditional(rng, p, x, Op::Write { res: g, expr, via, kind: Some(k), fail: Fail::None }, None);
+    }
+    Inject::UserPanic => {
+      let j = rng.below(n);
+      insert_conditional(rng, p, j, Op::Panic, None);
+    }
+    Inject::Cycle => {
+      let j = rng.below(n);
+      let i = if rng.chance(1, 6) { j } else { rng.below(j + 1) };
+      let prior = p.tasks[j].ops.iter().find_map(|o| match o { Op::Require { sel: Sel::Const(t), ok: Some(k) } if *t == i as u32 => Some(*k), _ => None });
+      let k = prior.unwrap_or_else(|| pick_okind(rng));
+      insert_conditional(rng, p, j, Op::Require { sel: Sel::Const(i as u32), ok: Some(k) }, None);
+    }
+  }
+  p.label = format!("injected/{:?}", what);
+  true
+}
+
+/// The four stale-edge reproducers (finding K3) and their labels.
+pub fn curated_k3() -> Vec<(&'static str, Case)> {
+  let cond = |m: i32, op: Op| vec![rd(0), Op::SkipIf { pred: Pred::LastNe(m), n: 1 }, op];
+  let mk = |name: &'static str, t0: Vec<Op>, t1: Vec<Op>, first: u32, second: u32| {
+    (name, Case {
+      prog: Program { tasks: vec![td(t0, 2, 2, OutFn::Hash), td(t1, 2, 2, OutFn::Hash)], n_res: 2, owner: vec![None, None], label: format!("curated/{}", name) },
+      init: vec![Some(0), Some(1)],
+      steps: vec![Step::TopDown(vec![first]), Step::Set(0, Some(1)), Step::TopDown(vec![second])],
+    })
+  };
+  vec![
+    // T1 writes R1 in mode 0; T0 reads R1 in mode 1 (nobody writes it then)
+    mk("k3-stale-write-edge-hidden-read", cond(1, rd(1)), cond(0, wr(1, Expr::Const(Some(2)))), 1, 0),
+    // T0 reads R1 in mode 0; T1 writes R1 in mode 1 (nobody reads it then)
+    mk("k3-stale-read-edge-hidden-write", cond(0, rd(1)), cond(1, wr(1, Expr::Const(Some(2)))), 0, 1),
+    // T0 writes R1 in mode 0; T1 writes R1 in mode 1
+    mk("k3-stale-write-edge-overlap", cond(0, wr(1, Expr::Const(Some(2)))), cond(1, wr(1, Expr::Const(Some(3)))), 0, 1),
+    // T0 requires T1 in mode 0; T1 requires T0 in mode 1
+    mk("k3-stale-require-edge-cycle", cond(0, rq(1)), cond(1, rq(0)), 0, 1),
+    // K4: T0 reads R1 and requires T1; T1 requires T2 only in mode 0; T2 writes R1. Legal in mode 0 (path T0->T1->T2);
+    // after T1 is re-executed in mode 1 the path is gone and the store keeps reader T0 and writer T2 unrelated.
+    ("k4-legality-path-removed-later", Case {
+      prog: Program { tasks: vec![td(vec![rd(1), rq(1)], 2, 3, OutFn::Hash), td(cond(0, rq(2)), 2, 3, OutFn::Hash), td(vec![wr(1, Expr::Const(Some(2)))], 2, 3, OutFn::Hash)], n_res: 2, owner: vec![None, None], label: "curated/k4".into() },
+      init: vec![Some(0), Some(1)],
+      steps: vec![Step::TopDown(vec![0]), Step::Set(0, Some(1)), Step::TopDown(vec![1])],
+    }),
+  ]
 }
